@@ -150,6 +150,8 @@ def contracts(repo):
             out.append(_count_contiguous(cb))
             out.append(_yield_runs(cb))
             out.append(_read(cb))
+        elif cb == 14 or os.environ.get("VERIF_TIER_EFFECTIVE", "quick") == "thorough":
+            out.append(_count_contiguous_ext(cb))  # about 40 s of VC generation per geometry: one geometry in the quick tier, all 8 in the thorough tier
     for i in range(32):
         out += _ext_bits(i)
     return out
@@ -566,3 +568,127 @@ def _ext_bits(i):
                          raises={"Error": lambda eng, st: eng.model.spec_sc_type(e0, i) == eng.model.SCT["QCOW2_SUBCLUSTER_INVALID"]}, case=f"extl2,sc={i}",
                          note="raises exactly for entries whose bitmap is invalid (a sub-cluster both allocated and zero, or allocation bits on an unallocated cluster)")
     return [mk_type(), c_range]
+
+
+# ------------------------------------------------------------------------------------------------ extended L2: run counting over sub-clusters
+class ExtTables:
+    """L2 table of extended entries: first words E(idx), bitmap bits B(idx, k) (0/1), with named abbreviations for the two
+    whole-bitmap conditions; T(idx, k) is the qcow2.txt type of sub-cluster k of entry idx"""
+
+    def setup_tables(self, key=None):
+        self.E = (lambda i: self.E2(key, i)) if key is not None else z3.Function("L2E", I, I)
+        Bf = z3.Function("L2B", I, I, I) if key is None else None
+        self.B = (lambda i, k: Bf(i, k)) if key is None else (lambda i, k: self.B3(key, i, k))
+        self.BothF = z3.Function("BothAllocAndZero", I, B) if key is None else None
+        self.AnyF = z3.Function("AnyAllocBit", I, B) if key is None else None
+
+    def table_axioms(self):
+        t = T
+        return [z3.ForAll([t], z3.And(self.E(t) >= 0, self.E(t) <= U64)),
+                z3.ForAll([t], z3.And(*[z3.And(self.B(t, k) >= 0, self.B(t, k) <= 1) for k in range(64)])),
+                z3.ForAll([t], self.BothF(t) == z3.Or(*[z3.And(self.B(t, k) == 1, self.B(t, 32 + k) == 1) for k in range(32)])),
+                z3.ForAll([t], self.AnyF(t) == z3.Or(*[self.B(t, k) == 1 for k in range(32)]))]
+
+    def bitmap_value(self, idx):
+        from pyvc.engine import bitlist_value
+
+        bl = tuple(self.B(idx, k) for k in range(64))
+        return IntV(bitlist_value(bl), (0, 64), bl)
+
+    def T_at(self, idx, k):
+        """type of sub-cluster k (a Python int) of entry idx"""
+        CT, S = self.CT, self.SCT
+        ct = self.spec_cluster_type(self.E(idx))
+        normal = z3.If(self.BothF(idx), S["QCOW2_SUBCLUSTER_INVALID"], z3.If(self.B(idx, 32 + k) == 1, S["QCOW2_SUBCLUSTER_ZERO_ALLOC"], z3.If(self.B(idx, k) == 1, S["QCOW2_SUBCLUSTER_NORMAL"], S["QCOW2_SUBCLUSTER_UNALLOCATED_ALLOC"])))
+        unalloc = z3.If(self.AnyF(idx), S["QCOW2_SUBCLUSTER_INVALID"], z3.If(self.B(idx, 32 + k) == 1, S["QCOW2_SUBCLUSTER_ZERO_PLAIN"], S["QCOW2_SUBCLUSTER_UNALLOCATED_PLAIN"]))
+        return z3.If(ct == CT["QCOW2_CLUSTER_COMPRESSED"], S["QCOW2_SUBCLUSTER_COMPRESSED"], z3.If(ct == CT["QCOW2_CLUSTER_NORMAL"], normal, unalloc))
+
+    def T_sym(self, idx, s):
+        """type of sub-cluster s (a z3 integer in 0..31) of entry idx"""
+        e = self.T_at(idx, 31)
+        for k in range(30, -1, -1):
+            e = z3.If(s == k, self.T_at(idx, k), e)
+        return e
+
+    def c_range_type_ext(self, eng, st, args, node):
+        """contract of get_subcluster_range_type for extended entries (proved above for each of the 32 constant sc_from values; a symbolic
+        sc_from in 0..31 is the union of those cases)"""
+        bm = args[2]
+        s = eng.as_int(args[3], st, node)
+        idx = st.ghost.get("cur_idx")
+        if idx is None or not isinstance(bm, IntV) or bm.bl is None:
+            raise Unsupported("get_subcluster_range_type on a bitmap that does not come from l2_table.bitmap")
+        eng.pre(st, z3.And(s >= 0, s <= 31), node, tag="range_type.requires")
+        t0 = self.T_sym(idx, s)
+        eng.may_raise("Error", st, t0 != self.SCT["QCOW2_SUBCLUSTER_INVALID"], node)
+        t, n = fresh("sc_type"), fresh("sc_count")
+        st.hyps.append(z3.And(t == t0, n >= 1, n <= 32 - s, z3.Implies(t == self.SCT["QCOW2_SUBCLUSTER_COMPRESSED"], n == 32 - s),
+                              *[z3.Implies(z3.And(s <= k, k < s + n), self.T_at(idx, k) == t) for k in range(32)],
+                              z3.Or(s + n == 32, self.T_sym(idx, s + n) != t)))
+        return TupleV([IntV(t), IntV(n)])
+
+
+class ExtCountModel(GeomModel, ExtTables):
+    def __init__(self, cb):
+        GeomModel.__init__(self, cb, True)
+        self.setup_tables()
+        self.methods[("l2_table", "entry")] = self.entry
+        self.methods[("l2_table", "bitmap")] = lambda eng, st, args, node: self.bitmap_value(eng.as_int(args[0], st, node))
+        self.global_calls["get_subcluster_range_type"] = self.c_range_type_ext
+
+    def entry(self, eng, st, args, node):
+        i = eng.as_int(args[0], st, node)
+        st.ghost["cur_idx"] = i
+        return IntV(self.E(i))
+
+    def offs(self, e):
+        return bits(e, 9, 56) * 512
+
+
+def _count_contiguous_ext(cb):
+    nb0, i0, s0 = z3.Ints("nb_clusters0 l2_index0 sc_index0")
+
+    def chk(m, t0):
+        S = m.SCT
+        return z3.Or(t0 == S["QCOW2_SUBCLUSTER_NORMAL"], t0 == S["QCOW2_SUBCLUSTER_ZERO_ALLOC"], t0 == S["QCOW2_SUBCLUSTER_UNALLOCATED_ALLOC"])
+
+    def covered(m, J, upto_sub=None):
+        """every sub-cluster of cluster l2_index0 + J that the count covers has the first type; host clusters consecutive"""
+        t0 = m.T_sym(i0, s0)
+        return z3.And(*[z3.Implies(z3.Or(J > 0, k >= s0), m.T_at(i0 + J, k) == t0) for k in range(32)],
+                      z3.Implies(chk(m, t0), m.offs(m.E(i0 + J)) == m.offs(m.E(i0)) + J * m.cs))
+
+    def loop_inv(eng, st):
+        m = eng.model
+        i = st.env["$i0"].e
+        cnt = st.env["count"].e
+        J = z3.Int("j")
+        t0 = m.T_sym(i0, s0)
+        parts = [z3.Implies(i >= 1, cnt == 32 * i - s0), z3.Implies(i == 0, cnt == 0), z3.ForAll([J], z3.Implies(z3.And(0 <= J, J < i), covered(m, J)))]
+        et, eo, co = st.env["expected_type"], st.env["expected_offset"], st.env["check_offset"]
+        etn, etv = eng.opt_parts(et)
+        eon, eov = eng.opt_parts(eo)
+        parts.append(z3.Implies(i >= 1, z3.And(z3.Not(etn), etv.e == t0 if etv is not None else False, z3.Not(eon), z3.Implies(chk(m, t0), eov.e == m.offs(m.E(i0)) + (i - 1) * m.cs) if eov is not None else False,
+                                               eng.truthy(co) == chk(m, t0), t0 != m.SCT["QCOW2_SUBCLUSTER_COMPRESSED"])))
+        return z3.And(*parts)
+
+    def post(eng, st, rv):
+        m = eng.model
+        r = eng.as_int(rv, st, None)
+        t0 = m.T_sym(i0, s0)
+        J = z3.Int("j")
+        # the counted range is [s0, s0 + r) in sub-cluster positions counted from cluster l2_index0; full = number of completely covered clusters
+        full, rest, f = ediv(s0 + r, z3.IntVal(32))
+        return [("count_in_range", z3.And(r >= 1, s0 + r <= 32 * nb0)), ("compressed_clusters_are_counted_whole_and_alone", z3.Implies(t0 == m.SCT["QCOW2_SUBCLUSTER_COMPRESSED"], r == 32 - s0)),
+                ("fully_covered_clusters_have_the_first_type_and_consecutive_host_offsets", z3.Implies(f, z3.ForAll([J], z3.Implies(z3.And(0 <= J, J < full), covered(m, J))))),
+                ("the_partly_covered_last_cluster_too", z3.Implies(z3.And(f, rest > 0), z3.And(*[z3.Implies(z3.And(z3.Or(full > 0, k >= s0), k < rest), m.T_at(i0 + full, k) == t0) for k in range(32)],
+                                                                                            z3.Implies(chk(m, t0), m.offs(m.E(i0 + full)) == m.offs(m.E(i0)) + full * m.cs))))]
+
+    c = FnContract(FILE, "count_contiguous_subclusters", ["C01"], lambda: ExtCountModel(cb),
+                   params=lambda m: {"qcow2": ObjV("qcow2"), "nb_clusters": IntV(nb0), "sc_index": IntV(s0), "l2_table": ObjV("l2_table"), "l2_index": IntV(i0)},
+                   requires=lambda m: [nb0 >= 1, i0 >= 0, i0 + nb0 <= (1 << m.l2_bits), s0 >= 0, s0 <= 31] + m.table_axioms(), post=post, raises={"Error": None},
+                   loops={("For", 0): LoopSpec(inv=loop_inv, shapes={"expected_type": "optint", "expected_offset": "optint", "check_offset": "bool", "count": "int", "first_sc": "local", "l2_entry": "local", "l2_bitmap": "local",
+                                                                     "sc_type": "local", "sc_count": "local"})},
+                   case=_case_name(cb, True), note="extended L2: entries and 64-bit bitmaps arbitrary; positions counted in sub-clusters")
+    c.select_terms = False
+    return c
